@@ -141,6 +141,7 @@ func TestC06_Isolation(t *testing.T) {
 	ev.Rule(c06, "rapid: one connection with 2..4 witness channels running complete C03 integrity scripts for the whole case and 8..120 victim channels, each ended by a drawn mode {client Free while server sends, client SendAndClose while server sends, handler returns OK / error status / panics while client sends, both end at once} at a drawn point with traffic in flight; oracle: connection stays open and keeps opening channels (ping echo at the end), witnesses complete in order and uncorrupted, no library panic and no connection-level error in the log; non-trivial = >=1 victim ended while its peer was still sending (peer observed the closed status); distinct by script hash")
 	ev.Check(t, c06, func(rt *rapid.T) {
 		cfg := drawConfig(rt)
+		cfg.Sched = drawSched(rt)
 		// small windows: many victims share the connection (the stream-density variant below covers large windows)
 		if cfg.Window == 0 || cfg.Window > 1000 {
 			cfg.Window = []int{64, 1000, 4096}[rapid.IntRange(0, 2).Draw(rt, "victimwindow")]
@@ -191,6 +192,7 @@ func TestC06_Isolation(t *testing.T) {
 }
 
 func runC06(cfg netConfig, wits []*chanScript, vics []*victim) (f failure) {
+	defer cfg.Sched.install()()
 	withProcs(cfg.Procs, func() {
 		log := netfx.NewLogger()
 		er := &errs{}
@@ -460,6 +462,7 @@ func TestC06_EndUnderStream(t *testing.T) {
 	ev.Rule(c06, "rapid, stream-density variant: 1..4 connections in parallel, each running 20..80 victim channels one after another (end modes as in Isolation, ending side stops after 0..3 messages, streaming side sends 1..17-byte frames through a 1 MiB/default window), and a ping echo on the same connection after every few victims; oracle: every ping echoes, the connection stays open, no library panic, no connection-level error; non-trivial = >=1 victim ended while its peer was still sending")
 	ev.CheckScaled(t, c06, 1, 3, func(rt *rapid.T) {
 		cfg := drawConfig(rt)
+		cfg.Sched = drawSched(rt)
 		cfg.Window = []int{1 << 20, 0}[rapid.IntRange(0, 1).Draw(rt, "streamwindow")]
 		cfg.Procs = []int{2, 4, 16}[rapid.IntRange(0, 2).Draw(rt, "procs2")]
 		// tiny socket buffers (one syscall per 16 bytes) behind a megabyte of queued frames only make the
@@ -486,6 +489,7 @@ func TestC06_EndUnderStream(t *testing.T) {
 		var f failure
 		inflight := 0
 		t0 := time.Now()
+		defer cfg.Sched.install()()
 		defer func() {
 			if d := time.Since(t0); d > 2*time.Second {
 				ev.Label(c06, "stream:case-took>2s", 1)
